@@ -613,7 +613,22 @@ func awsOpCase(r *Rng, fleet bool, w io.Writer) string {
 		obs["j"] = nnEntries(rec.Entries)
 		line["resps"] = nnResps(rec.Resps)
 		line["obs"] = obs
+		line["seq"] = 0
 		emitLine(w, line)
+		// follow-up increases on the SAME provider object, without a refresh in between: the provider's cached
+		// group must still describe what AWS last told it (the model carries the cached group across the sequence)
+		if !fleet && r.chance(35) {
+			for seq := 1; seq <= r.pickI(1, 2); seq++ {
+				rec.reset()
+				if r.chance(40) {
+					rec.FailAt[0] = true
+				}
+				delta := int64(r.rng(1, 3))
+				outcome := protect(func() error { return ng.IncreaseSize(delta) })
+				emitLine(w, map[string]interface{}{"op": "awsop", "kind": "increase", "cfg": pcfg, "g": pg, "delta": delta, "seq": seq,
+					"resps": nnResps(rec.Resps), "obs": map[string]interface{}{"outcome": outcome, "j": nnEntries(rec.Entries)}})
+			}
+		}
 		return kind
 	}
 }
